@@ -356,21 +356,30 @@ func (s *Storer) GetRdbWriter(r io.Reader, offset int64, rdbSize int64) (*RdbWri
 		left:    offset,
 		rdbSize: rdbSize,
 	}
-	s.dataSet = newDataSet(rdb, nil)
+	ds := newDataSet(rdb, nil)
+	s.dataSet = ds
 	rdb.AddWriter(w)
 	s.dataSetMux.Unlock()
 
 	obr := &observerProxy{
-		close: s.newRdbWCloseObserver(w, rdb),
+		close: s.newRdbWCloseObserver(w, ds, rdb),
 	}
 	w.SetObserver(obr)
 
 	return w, nil
 }
 
-func (s *Storer) newRdbWCloseObserver(w *RdbWriter, rdb *dataSetRdb) func(args ...interface{}) {
+func (s *Storer) newRdbWCloseObserver(w *RdbWriter, ds *dataSet, rdb *dataSetRdb) func(args ...interface{}) {
 	return func(args ...interface{}) {
 		rdb.DelWriter(w)
+		// args : left, size, incomplete
+		// an incomplete snapshot has been removed from disk by the writer, it must not
+		// be offered (GetRdb, IsValidOffset, GetOffsetRange) any more
+		if len(args) > 2 {
+			if incomplete, ok := args[2].(bool); ok && incomplete {
+				ds.dropRdb(rdb)
+			}
+		}
 	}
 }
 
